@@ -1351,6 +1351,7 @@ class AggregateBase(UnitsManaged, Saveable, OpenSystem):
 
         """
         manager = Manager()
+        units_backup = manager.get_current_units("energy")
         manager.set_current_units("energy", "int")
 
         # maximum multiplicity of excitons handled by this aggregate
@@ -1725,7 +1726,7 @@ class AggregateBase(UnitsManaged, Saveable, OpenSystem):
 
         self._built = True
 
-        manager.unset_current_units("energy")
+        manager.set_current_units("energy", units_backup)
 
 
     def rebuild(self, mult=1, sbi_for_higher_ex=False,
